@@ -28,6 +28,7 @@ DECIDED = [
     'precedes the loop; the recorded row carries the current flags',
     'R3 flag table: distinct powers of two, ZERO and ALL are the unions they claim, the name table agrees, '
     'HitResult.zeros filters on ZERO',
+    'R1/R2 (flags) every crossing check is also evaluated with RANGE and MACH|RANGE already raised for the sample: the flags must be or-ed, never assigned',
 ]
 NOT_DECIDED = ['presence exactly when a crossing occurs, "within one integration step", ordering in time (runtime '
                'sequence of integration points)']
